@@ -84,6 +84,7 @@ TRANSPARENT_UNARY = (
 _TRANSPARENT = [re.compile(p) for p in TRANSPARENT_UNARY]
 # combinators that `?` looks through (simp_ok / err_of): their call is not an event of its own, so that
 # `x.ok_or(E)?` / `x.map_err(f)?` and the explicit `match` leave the same trace
+COMBINATOR = re.compile(r"^std::(option::Option|result::Result)::(map|and_then|transpose|unwrap_or_default|unwrap_or|expect|unwrap)$")
 PURE_COMBINATOR = re.compile(r"^std::(option::Option::(ok_or|ok_or_else)|result::Result::(map_err|ok))$")
 
 
@@ -100,7 +101,7 @@ def strip_refs(e):
 def const_expr(c):
     """JSON const -> expression"""
     if "fn" in c:
-        return ("fnref", c["fn"])
+        return ("fnref", c.get("fn_resolved") or c["fn"])
     if "uneval" in c:
         v = c.get("val")
         inner = const_expr(v) if v else ("c", c.get("ty", "?"), None)
@@ -412,6 +413,8 @@ class Walker:
         val = self.read_local(st, 0)
         if mode == "await":
             val = ("agg", "adt", "std::task::Poll", "Ready", 0, (val,))
+        elif isinstance(mode, tuple) and mode[0] == "wrap":
+            val = ("agg", "adt", mode[1], mode[2], mode[3], (val,))
         env_c, blocks_c, ret_c = st["ret"]
         st_c = {"env": dict(env_c), "heap": st["heap"], "events": st["events"], "atoms": st["atoms"],
                 "blocks": list(blocks_c), "ret": ret_c}
@@ -531,6 +534,8 @@ class Walker:
             val = args[0] if args else ("unk", name)
             if decl.endswith("into_future"):
                 pass
+        elif t["t"] is not None and COMBINATOR.search(name) and self._combinator(st, t, bi, name, args):
+            return None
         else:
             g = self._inline_target(f) if t["t"] is not None else None
             if g is not None and len(args) == g.body["argc"]:
@@ -545,6 +550,108 @@ class Walker:
             return None
         self.assign(st, t["dest"], val)
         return t["t"]
+
+    # ---- std Option / Result combinators as control flow (so that `x.map(f)` and `match x { Some(v) => Some(f(v)), None => None }`
+    # leave the same paths).  Only when the function argument is a closure built on this path; otherwise the call stays opaque.
+    def _apply(self, st, F, arg, t, wrap):
+        """continue at t['t'] with dest := wrap(F(arg)); F is a closure aggregate (inlined) — returns False if F cannot be applied"""
+        F = strip_refs(F)
+        if not (isinstance(F, tuple) and F[0] == "agg" and F[1] == "closure"):
+            return False
+        prog = getattr(self.fn, "prog", None)
+        if prog is None or len(self.stack) > MAX_INLINE_DEPTH or F[2] in self.stack:
+            return False
+        l = prog.fns.get(F[2])
+        if not l or len(l) != 1 or l[0].body is None:
+            return False
+        self._inline(st, l[0], {1: F, 2: arg}, t, wrap)
+        return True
+
+    def _combinator(self, st, t, bi, name, args):
+        short = name.split("::")[-1]
+        is_opt = "option::Option" in name
+        some, none = (("std::option::Option", "Some", 1), ("std::option::Option", "None", 0)) if is_opt else (("std::result::Result", "Ok", 0), ("std::result::Result", "Err", 1))
+        x = args[0]
+        if short in ("map", "and_then") and len(args) == 2:
+            F = strip_refs(args[1])
+            is_fn = isinstance(F, tuple) and F[0] == "fnref"
+            if not is_fn:
+                if not (isinstance(F, tuple) and F[0] == "agg" and F[1] == "closure"):
+                    return False
+                prog = getattr(self.fn, "prog", None)
+                if prog is None or F[2] not in prog.fns or len(self.stack) > MAX_INLINE_DEPTH or F[2] in self.stack:
+                    return False
+            kv = None
+            if isinstance(x, tuple) and x[0] == "agg" and x[1] == "adt" and x[3] in ("Some", "Ok", "None", "Err"):
+                kv = x[3] in ("Some", "Ok")
+            # the `empty` arm: value passes through unchanged (None / the same Err)
+            if kv is not True:
+                s2 = self._fork(st)
+                if kv is False or self._assume(s2, simp_atom(("is", x, none[1]))):
+                    if is_opt:
+                        v = ("agg", "adt", none[0], none[1], none[2], ())
+                    else:
+                        v = ("agg", "adt", none[0], none[1], none[2], (("err", x),)) if kv is None else x
+                    self.assign(s2, t["dest"], v)
+                    self._walk(t["t"], s2)
+            if kv is not False:
+                s2 = self._fork(st)
+                if kv is True or self._assume(s2, simp_atom(("is", x, some[1]))):
+                    payload = x[5][0] if kv is True and x[5] else ("ok", x)
+                    wrap = ("wrap", some[0], some[1], some[2]) if short == "map" else "call"
+                    if is_fn:
+                        # a function item (e.g. `.map(IdleTimeout::try_from)`): an ordinary call on the payload
+                        v = ("call", F[1], (payload,), bi)
+                        s2["events"].append(("call", F[1], (payload,), bi, loc_of(t["at"]), {"path": F[1]}, len(s2["atoms"])))
+                        if short == "map":
+                            v = ("agg", "adt", some[0], some[1], some[2], (v,))
+                        self.assign(s2, t["dest"], v)
+                        self._walk(t["t"], s2)
+                    elif not self._apply(s2, F, payload, t, wrap):
+                        return False
+            return True
+        if short == "transpose" and is_opt and len(args) == 1 and isinstance(x, tuple) and x[0] == "agg" and x[1] == "adt":
+            if x[3] == "None":
+                v = ("agg", "adt", "std::result::Result", "Ok", 0, (x,))
+                self.assign(st, t["dest"], v)
+                self._walk(t["t"], st)
+                return True
+            if x[3] == "Some" and x[5]:
+                r = x[5][0]
+                kv = known_try(r)
+                for okk in (True, False):
+                    if kv is not None and kv != okk:
+                        continue
+                    s2 = self._fork(st)
+                    if kv is not None or self._assume(s2, simp_atom(("try", r, okk))):
+                        if okk:
+                            v = ("agg", "adt", "std::result::Result", "Ok", 0, (("agg", "adt", "std::option::Option", "Some", 1, (simp_ok(r),)),))
+                        else:
+                            v = ("agg", "adt", "std::result::Result", "Err", 1, (err_of(r),))
+                        self.assign(s2, t["dest"], v)
+                        self._walk(t["t"], s2)
+                return True
+        if short in ("expect", "unwrap") and isinstance(x, tuple) and x[0] == "agg" and x[1] == "adt":
+            if x[3] in ("Some", "Ok") and x[5]:
+                self.assign(st, t["dest"], x[5][0])
+                self._walk(t["t"], st)
+                return True
+            if x[3] in ("None", "Err"):
+                self._finish(st, ("panic", name, args, loc_of(t["at"]), tuple(mac_of(t["at"]))))
+                return True
+        if short == "unwrap_or_default" and isinstance(x, tuple) and x[0] == "agg" and x[1] == "adt" and x[3] in ("None", "Err"):
+            self.assign(st, t["dest"], ("call", "std::default::Default::default", (), bi))
+            self._walk(t["t"], st)
+            return True
+        if short in ("unwrap_or_default", "unwrap_or") and isinstance(x, tuple) and x[0] == "agg" and x[1] == "adt" and x[3] in ("Some", "Ok") and x[5]:
+            self.assign(st, t["dest"], x[5][0])
+            self._walk(t["t"], st)
+            return True
+        if short == "unwrap_or" and len(args) == 2 and isinstance(x, tuple) and x[0] == "agg" and x[1] == "adt" and x[3] in ("None", "Err"):
+            self.assign(st, t["dest"], args[1])
+            self._walk(t["t"], st)
+            return True
+        return False
 
     def _assume(self, st, atom):
         """add a path fact; False when it contradicts a fact already on the path (syntactic)"""
@@ -712,6 +819,9 @@ def residual_value(y, selfty):
 
 def known_try(y):
     """True / False when `y?` is known to continue / to return on this path (y is a constructor tree), else None"""
+    if isinstance(y, tuple) and y[0] == "call" and y[2] and (_call_is(y, "std::result::Result::map_err") or _call_is(y, "std::option::Option::ok_or")
+                                                             or _call_is(y, "std::option::Option::ok_or_else") or _call_is(y, "std::result::Result::ok")):
+        return known_try(y[2][0])
     if isinstance(y, tuple) and y[0] == "agg" and y[1] == "adt":
         if y[3] in ("Ok", "Some"):
             return True
